@@ -9,3 +9,5 @@ for c in "$@"; do
   echo "== $(basename $d) under check $c: rc=$rc"; echo "$out" | grep -E "VIOLATION|KNOWN-FINDING|obligations" | head -5
 done
 git -C /repo checkout -- .
+# evidence and generated files written while the seeded change was applied describe the mutated tree: restore them
+git -C /verif checkout -- evidence lean/LzmaVerif/Generated 2>/dev/null
